@@ -311,3 +311,7 @@ mod tests {
             })
     }
 }
+
+#[cfg(all(aws_s2n_quic_verif, test))]
+#[path = "/verif/harness/core/stateless_reset.rs"]
+mod verif;
